@@ -18,4 +18,16 @@ CHECKS = {
   "text": "Generated search (hundreds of cards per quick run, thousands thorough) comparing the library density with an independently coded closed formula at 1e-8; evidence proportional to the counted cases, no proof of absence.",
   "note": "Trusted: the harness's numpy reference (Blatt-Weisskopf from reverse Bessel polynomials, Legendre via numpy, own boosts), NumPy/TensorFlow arithmetic. Domain: resonance nominal masses inside the kinematic window.",
  },
+ "C12": {
+  "engine": "enumeration",
+  "technique": "exhaustive enumeration of all (2j<=8,m,m') and all Clebsch-Gordan tuples j<=4 against exact Wigner/Racah formulas; Hypothesis-generated Euler triples and SL(2,C) rotation-boost words for unitarity, group law and Euler round-trip",
+  "text": "Finite index sets are enumerated completely in both tiers (exhaustive_parts in evidence); the continuous angle/rapidity domain is sampled (thousands of triples, edge values 0, pi, 2pi drawn deliberately). Exploration level: exhaustive on indices, sampled on angles.",
+  "note": "Trusted: harness's exact-factorial Wigner and Racah formulas (cross-checked with mpmath at 40 digits), numpy SU(2) algebra and polar decomposition. Conventions hard-wired from the documented D-matrix definition and the probed SU2M ordering (DESIGN C12).",
+ },
+ "C14": {
+  "engine": "enumeration",
+  "technique": "exhaustive enumeration of all (2n-3)!! topologies for n<=6 (quick) / n<=7 (thorough) with an independent canonical form; all-pairs and Hypothesis-sampled pairs for topology_same; Hypothesis-generated decay groups with renamed resonances and identical-particle ids",
+  "text": "Enumeration, all-pairs (n<=5) and table round-trips are complete for the stated n; groups and large-n pairs are generated search. Exploration level with exhaustive finite parts.",
+  "note": "Trusted: harness canonical form (multiset of leaf sets per internal node) computed from (core, outs) only.",
+ },
 }
